@@ -756,7 +756,7 @@ Lemma decompose_composed scheme netloc hn p remote_hi lit path query ptext qtext
   netloc <> [] -> all_ascii netloc = true -> brackets_ok ip_address netloc ->
   mem 47 netloc = false -> mem 63 netloc = false -> mem 35 netloc = false ->
   mem 9 netloc = false -> mem 10 netloc = false -> mem 13 netloc = false ->
-  hostname_of netloc = Ok (Some hn) -> userinfo_of netloc = (None, None) -> port_of netloc = Ok p ->
+  hostname_of netloc = Ok (Some hn) -> (let '(u, pw) := userinfo_of netloc in truthy u || truthy pw) = false -> port_of netloc = Ok p ->
   undecided_remote ip_address scheme netloc = Ok (scheme, remote_hi) ->
   (if mem 91 netloc then Ok true else is_ipv4_literal hn) = Ok lit ->
   (if lit then uh = None else exists h', unquote hn = Ok h' /\ uh = Some (translate ascii_lowercase h')) ->
@@ -770,7 +770,7 @@ Proof.
   rewrite urlsplit_urlunsplit; try assumption.
   - cbn [catch_value bind is_nil negb].
     pose proof (coap_schemes_ok _ Hsch) as Hok. destruct scheme as [|s0 sr] eqn:Es; [discriminate|]. cbn [is_nil].
-    rewrite Hsch. cbn [negb]. rewrite Hhn. cbn [bind]. rewrite Hui. cbn [truthy orb].
+    rewrite Hsch. cbn [negb]. rewrite Hhn. cbn [bind]. destruct (userinfo_of netloc) as [u0 pw0]. rewrite Hui.
     rewrite Pback, Qback. cbn [catch_unicode bind]. rewrite Hport. cbn [catch_value bind]. rewrite Hrem. cbn [catch_value bind fst snd].
     rewrite Hlit. cbn [bind andb]. destruct lit; cbn [negb].
     + subst uh. reflexivity.
